@@ -616,7 +616,7 @@ def catalogue(full=True):
             "timedelta": "timedelta64[ns]", "cat": "category"}
     for fam, dt in fams.items():
         for kind in check_kinds(fam):
-            nvar = min(8, max(4, len(VALUES.get(fam, [])))) if full else 4
+            nvar = min(8, max(4, len(VALUES.get(fam, [])))) if full else 3
             for variant in range(nvar):
                 c = make_check(kind, fam, pick, variant)
                 if variant % 2 and kind in ALIASES:
